@@ -101,6 +101,32 @@ def _lower_tuple_match(s: ast.Match, counter):
     return [_loc(n, s) for n in pre + (tail or [ast.Pass()])]
 
 
+def _sequence_test(p: ast.MatchSequence, subj):
+    """(test, bindings) for a fixed-length sequence pattern against an arbitrary subject:
+    __is_sequence__(S) and len(S) == k and S[0] matches p0 and ...   (__is_sequence__: a list/tuple-like that is not a string - the
+    language's definition; the analyses decide it for tuples, lists and array shapes and leave it undecided otherwise)"""
+    if any(isinstance(q, ast.MatchStar) for q in p.patterns):
+        return None
+    tests = [ast.Call(func=_load("__is_sequence__"), args=[_load(subj)], keywords=[]),
+             ast.Compare(left=ast.Call(func=_load("len"), args=[_load(subj)], keywords=[]), ops=[ast.Eq()], comparators=[ast.Constant(value=len(p.patterns))])]
+    binds = []
+    for i, q in enumerate(p.patterns):
+        item = ast.Subscript(value=_load(subj), slice=ast.Constant(value=i), ctx=ast.Load())
+        if isinstance(q, ast.MatchAs) and q.pattern is None:
+            if q.name is not None:
+                binds.append(ast.Assign(targets=[ast.Name(id=q.name, ctx=ast.Store())], value=item))
+            continue
+        if isinstance(q, ast.MatchValue):
+            tests.append(ast.Compare(left=item, ops=[ast.Eq()], comparators=[q.value]))
+        elif isinstance(q, ast.MatchSingleton):
+            tests.append(ast.Compare(left=item, ops=[ast.Is()], comparators=[ast.Constant(value=q.value)]))
+        elif isinstance(q, ast.MatchOr) and all(isinstance(r, ast.MatchValue) for r in q.patterns):
+            tests.append(ast.BoolOp(op=ast.Or(), values=[ast.Compare(left=item, ops=[ast.Eq()], comparators=[r.value]) for r in q.patterns]))
+        else:
+            return None
+    return ast.BoolOp(op=ast.And(), values=tests), binds
+
+
 def _lower_match(s: ast.Match, counter):
     pre = []
     if isinstance(s.subject, ast.Tuple) and any(isinstance(c.pattern, ast.MatchSequence) for c in s.cases):
@@ -121,6 +147,11 @@ def _lower_match(s: ast.Match, counter):
                 return None
             body = [ast.Assign(targets=[ast.Name(id=p.name, ctx=ast.Store())], value=_load(subj))] + body
             t = True
+        elif isinstance(p, ast.MatchSequence):
+            st_ = _sequence_test(p, subj)
+            if st_ is None or (st_[1] and c.guard is not None):
+                return None
+            t, body = st_[0], st_[1] + body
         else:
             t = _pattern_test(p, subj)
         if t is None:
